@@ -300,7 +300,7 @@ package sipsp
 //@             (u.Headers.Len == 0 && u.Params.Len == 0 && u.Port.Len == 0 && u.Host.Len > 0 ==> fend(r) == fend(u.Host)) &&
 //@             (u.Headers.Len == 0 && u.Params.Len == 0 && u.Port.Len == 0 && u.Host.Len == 0 && u.Pass.Len > 0 ==> fend(r) == fend(u.Pass)) &&
 //@             (u.Headers.Len == 0 && u.Params.Len == 0 && u.Port.Len == 0 && u.Host.Len == 0 && u.Pass.Len == 0 && u.User.Len > 0 ==> fend(r) == fend(u.User))
-//@   ensures[C18] "long-covers": fend(r) <= uriEnd(u)
+//@   ensures[C18,*] "long-covers": fend(r) <= uriEnd(u)
 
 //@ func (*PsipURI).Short(u) (r)
 //@   requires u != nil && uriOK(u)
@@ -442,7 +442,7 @@ package sipsp
 //@   ensures r == ip4EndDef(buf, p)
 
 //@ func IP4Prefix(buf, dst) (ok, n, err)
-//@   requires bufOK(buf) && blockSep(buf, dst)
+//@   requires bufOK(buf) && (len(dst) == 0 || blockSep(buf, dst))
 //@   modifies dst[*]
 //@   loop 0 "for ; o < len(buf); o++"
 //@     invariant 0 <= o && o <= len(buf) && 0 <= pos && pos <= 3 && 0 <= digits && digits <= 3
@@ -467,7 +467,7 @@ package sipsp
 //@   ensures[C20] "not-yet": !ok ==> (err == ErrHdrMoreBytes <==> n == len(buf)) && (err == ErrHdrBad || err == ErrHdrMoreBytes)
 
 //@ func ContainsIP4(buf, dst) (ok, o, nxt)
-//@   requires bufOK(buf) && blockSep(buf, dst)
+//@   requires bufOK(buf) && (len(dst) == 0 || blockSep(buf, dst))
 //@   modifies dst[*]
 //@   loop 0 "for i := 0; i < len(buf);"
 //@     invariant 0 <= i && i <= len(buf)
@@ -734,3 +734,249 @@ package sipsp
 //@ func URIRawCmp(rawURI1, rawURI2, flags) (r, err, idx)
 //@   requires bufOK(rawURI1) && bufOK(rawURI2)
 //@   ensures[C15] "raw-error": err != NoURIErr ==> !r && (idx == 0 || idx == 1)
+
+// ---- small accessors: verified on their own for safety (C04); callers keep inlining them ----
+
+//@ func (*PContacts).Empty(c) (r)
+//@   inline
+//@   requires c != nil
+
+//@ func (*PContacts).More(c) (r)
+//@   inline
+//@   requires c != nil
+
+//@ func (*PContacts).Parsed(c) (r)
+//@   inline
+//@   requires c != nil
+
+//@ func (*PContacts).VNo(c) (r)
+//@   inline
+//@   requires c != nil
+
+//@ func (*PPAIs).Empty(c) (r)
+//@   inline
+//@   requires c != nil
+
+//@ func (*PPAIs).More(c) (r)
+//@   inline
+//@   requires c != nil
+
+//@ func (*PPAIs).Parsed(c) (r)
+//@   inline
+//@   requires c != nil
+
+//@ func (*PPAIs).VNo(c) (r)
+//@   inline
+//@   requires c != nil
+
+//@ func (*PFLine).Empty(fl) (r)
+//@   inline
+//@   requires fl != nil
+
+//@ func (*PFLine).Parsed(fl) (r)
+//@   inline
+//@   requires fl != nil
+
+//@ func (*PFLine).Pending(fl) (r)
+//@   inline
+//@   requires fl != nil
+
+//@ func (*PFLine).Request(fl) (r)
+//@   inline
+//@   requires fl != nil
+
+//@ func (*PFromBody).Empty(fv) (r)
+//@   inline
+//@   requires fv != nil
+
+//@ func (*PFromBody).Parsed(fv) (r)
+//@   inline
+//@   requires fv != nil
+
+//@ func (*PFromBody).Pending(fv) (r)
+//@   inline
+//@   requires fv != nil
+
+//@ func (*Hdr).Missing(h) (r)
+//@   inline
+//@   requires h != nil
+
+//@ func (*PHdrVals).GetCLen(hv) (r)
+//@   inline
+//@   requires hv != nil
+
+//@ func (*PHdrVals).GetCSeq(hv) (r)
+//@   inline
+//@   requires hv != nil
+
+//@ func (*PHdrVals).GetCallID(hv) (r)
+//@   inline
+//@   requires hv != nil
+
+//@ func (*PHdrVals).GetContacts(hv) (r)
+//@   inline
+//@   requires hv != nil
+
+//@ func (*PHdrVals).GetExpires(hv) (r)
+//@   inline
+//@   requires hv != nil
+
+//@ func (*PHdrVals).GetFrom(hv) (r)
+//@   inline
+//@   requires hv != nil
+
+//@ func (*PHdrVals).GetPAIs(hv) (r)
+//@   inline
+//@   requires hv != nil
+
+//@ func (*PHdrVals).GetTo(hv) (r)
+//@   inline
+//@   requires hv != nil
+
+//@ func (*PHdrVals).MaxExpires(hv) (max, ok)
+//@   inline
+//@   requires hv != nil
+
+//@ func (*URIHdrsLst).Empty(l) (r)
+//@   inline
+//@   requires l != nil
+
+//@ func (*URIHdrsLst).HNo(l) (r)
+//@   inline
+//@   requires l != nil
+
+//@ func (*URIHdrsLst).More(l) (r)
+//@   inline
+//@   requires l != nil
+
+//@ func (*URIParamsLst).Empty(l) (r)
+//@   inline
+//@   requires l != nil
+
+//@ func (*URIParamsLst).PNo(l) (r)
+//@   inline
+//@   requires l != nil
+
+//@ func (*URIParamsLst).More(l) (r)
+//@   inline
+//@   requires l != nil
+
+//@ func (*PSIPMsg).Err(m) (r)
+//@   inline
+//@   requires m != nil
+
+//@ func (*PSIPMsg).Method(m) (r)
+//@   inline
+//@   requires m != nil
+
+//@ func (*PSIPMsg).Parsed(m) (r)
+//@   inline
+//@   requires m != nil
+
+//@ func (*PSIPMsg).Request(m) (r)
+//@   inline
+//@   requires m != nil
+
+//@ func (*PTokParam).Empty(pt) (r)
+//@   inline
+//@   requires pt != nil
+
+//@ func (*HdrFlags).Clear(f, Type) ()
+//@   inline
+//@   requires f != nil
+//@   modifies *f
+
+//@ func (*HdrFlags).Set(f, Type) ()
+//@   inline
+//@   requires f != nil
+//@   modifies *f
+
+//@ func (*HdrLst).GetHdr(hl, t) (r)
+//@   inline
+//@   requires hl != nil
+
+//@ func (*HdrLst).SetHdr(hl, newhdr) (r)
+//@   inline
+//@   requires hl != nil && newhdr != nil
+//@   modifies *hl
+
+//@ func (*PContacts).GetContact(c, n) (r)
+//@   inline
+//@   requires c != nil && n >= 0
+
+//@ func (*PPAIs).GetPAI(c, n) (r)
+//@   inline
+//@   requires c != nil && n >= 0
+
+//@ func (*PContacts).Init(c, valbuf) ()
+//@   inline
+//@   requires c != nil
+//@   modifies *c
+
+//@ func (*URIHdrsLst).Init(l, hbuf) ()
+//@   inline
+//@   requires l != nil
+//@   modifies *l
+
+//@ func (*URIParamsLst).Init(l, pbuf) ()
+//@   inline
+//@   requires l != nil
+//@   modifies *l
+
+//@ func (SIPMethod).Name(m) (r)
+//@   inline
+
+//@ func (PField).Get(p, buf) (r)
+//@   inline
+//@   requires bufOK(buf) && within(p, len(buf))
+
+//@ func GetPField(buf, f) (r)
+//@   inline
+//@   requires bufOK(buf) && within(f, len(buf))
+
+//@ func (*PsipURI).Flat(u, buf) (r)
+//@   inline
+//@   requires u != nil && uriOK(u) && bufOK(buf) && uriEnd(u) <= len(buf)
+
+//@ func (HdrFlags).Test(f, Type) (r)
+//@   inline
+
+// ---- IPv6 text and the call-id signature: safety and termination only (C04) ----
+
+//@ func IP6Prefix(buf, dst) (ok, n, err)
+//@   requires bufOK(buf) && (len(dst) == 0 || blockSep(buf, dst))
+//@   modifies dst[*]
+//@   loop 0 "for ; o < len(buf); o++"
+//@     invariant 0 <= o && o <= len(buf) && 0 <= i && 0 <= i1 && 0 <= colonsNo && colonsNo <= 8 && 0 <= digits && digits <= 4
+//@     invariant (addr == addrof_addrBuf1 || addr == addrof_addrBuf2)
+//@     invariant addr == addrof_addrBuf1 ==> i == colonsNo && colonsNo <= 7 && i1 == 0
+//@     invariant addr == addrof_addrBuf2 ==> i1 + i + 1 == colonsNo
+//@     decreases len(buf) - o
+//@   loop 1 "for j := 0; j < 8; j++"
+//@     invariant 0 <= j && j <= 8 && len(dst) >= 16
+//@     decreases 8 - j
+//@   ensures 0 <= n && n <= len(buf)
+
+//@ func ContainsIP6(buf, dst) (ok, o, nxt)
+//@   requires bufOK(buf) && (len(dst) == 0 || blockSep(buf, dst))
+//@   modifies dst[*]
+//@   loop 0 "for i := 0; i < len(buf);"
+//@     invariant 0 <= i && i <= len(buf)
+//@     decreases len(buf) - i
+//@   loop 1 "for o := offs; o < dOffs; o++"
+//@     invariant 0 <= i && i <= dOffs && dOffs < len(buf) && 0 <= offs && offs <= o && o <= dOffs
+//@     decreases dOffs - o
+//@   ensures ok ==> 0 <= o && o <= len(buf) && 0 <= nxt && o+nxt <= len(buf)
+
+//@ func GetCallIDSig(cid) (sig, l)
+//@   requires bufOK(cid)
+
+//@ func GetMsgSig(msg) (sig, err)
+//@   requires msg != nil && bufOK(msg.Buf) && within(msg.PV.Callid.CallID, len(msg.Buf)) && within(msg.PV.From.Tag, len(msg.Buf))
+//@   requires forall(k, 0, len(msg.HL.Hdrs), within(msg.HL.Hdrs[k].Val, len(msg.Buf)))
+//@   loop 0 "for _, h := range msg.HL.Hdrs"
+//@     invariant -1 <= rangeindex && rangeindex < len(msg.HL.Hdrs) && 0 <= sig.HdrSigLen && sig.HdrSigLen < 8
+//@     invariant forall(k, rangeindex+1, len(msg.HL.Hdrs), within(msg.HL.Hdrs[k].Val, len(msg.Buf)))
+//@     decreases len(msg.HL.Hdrs) - rangeindex
+//@   ensures[C19] "at-most-eight": 0 <= sig.HdrSigLen && sig.HdrSigLen <= 8
+//@   ensures[C19] "replies-have-none": !msg.Request() ==> err == ErrHdrEmpty
